@@ -17,7 +17,11 @@
 package paths
 
 func (r *relativePathsResolver) absExtendsPath(value any) (any, error) {
-	v := value.(string)
+	v, ok := value.(string)
+	if !ok {
+		// not a path: left as is, type errors are reported by validation
+		return value, nil
+	}
 	if r.isRemoteResource(v) {
 		return v, nil
 	}
